@@ -79,7 +79,7 @@ func waitArrival() (arrival, bool) {
 	select {
 	case a := <-arrivals:
 		return a, true
-	case <-time.After(3 * time.Second):
+	case <-time.After(15 * time.Second):
 		return arrival{}, false
 	}
 }
@@ -294,7 +294,7 @@ func (d *driver) do(o Op) string {
 		// wait for the persist closure to reach its first gate and, in the background mode, for Commit to return
 		// (either may happen first)
 		gotArr, gotRet := false, d.c.Sync
-		deadline := time.After(3 * time.Second)
+		deadline := time.After(15 * time.Second)
 		for !gotArr || !gotRet {
 			select {
 			case a := <-arrivals:
@@ -341,7 +341,7 @@ func (d *driver) do(o Op) string {
 					if err != nil {
 						d.problem("Commit of writer %d failed: %v", o.W, err)
 					}
-				case <-time.After(3 * time.Second):
+				case <-time.After(15 * time.Second):
 					d.problem("synchronous Commit of writer %d did not return", o.W)
 				}
 				ws.commitRet = nil
